@@ -444,6 +444,7 @@ func IsBoolNode(n Node) bool {
 //@ func (*RegexNode).Regexp
 //@ props C12 C04
 //@ ensures [C12] compiled: r0 != nil
+//@ ensures [C12] the-pattern-the-flags-describe: r0 == regexp.MustCompile(n.flags.goFlags() + ite(n.flags.shouldQuoteMeta(), regexp.QuoteMeta(n.pattern), n.pattern))
 
 // negated flips the sign of a number literal's text: exactly one leading "-" goes or comes
 //@ func negated
@@ -490,11 +491,13 @@ func IsBoolNode(n Node) bool {
 
 //@ func (regexFlags).shouldQuoteMeta
 //@ props C12
+//@ pure
 //@ mode bv
 //@ ensures [C12] q: r0 == (f&16 != 0)
 
 //@ func (regexFlags).goFlags
 //@ props C12
+//@ pure
 //@ mode bv
 //@ ensures [C12] empty-iff-no-option: (len(r0) == 0) == (f&1 == 0 && (f&16 != 0 || (f&2 == 0 && f&4 == 0)))
 
